@@ -21,14 +21,69 @@ func init() {
 			"R2": "in ValidateToken: the call of the validation function is guarded by claim==true; every other return yields const false",
 			"R3": "a non-blocking select on ctx.Done() whose chosen branch returns false dominates the goroutine issuing the Get; the blocking select receiving the result has a ctx.Done() state",
 			"R4": "ValidateTokenOrDemote: `return true` guarded by err==nil and verdict; every `return false` is unreachable once the edges carrying claim==false and the blocks containing a may-demote call are cut",
+			"R7": "in every non-stop unit that clears the claim, the Store(false) is controlled only by the function's arguments, the claim, the term identity (term context field == argument) and the state word; no other field of the election (the election context, say) decides whether a demotion request clears the claim",
 			"R6": "in the demotion wrapper (the non-stop function that invokes onDemote under 'the clearing unit saw the claim true'): every path from the false edge of that test to the return passes a blocking wait",
 			"R5": "validation loop: the edge verdict==false leads to a may-demote call followed by return",
 		},
 	})
 }
 
+// demotionClearsRule (C04-R7, shared with C03): a demotion request ends the claim. In the
+// non-stop units that clear the claim, whether the Store(false) executes depends only on the
+// function's arguments, the claim itself, the identity of the term and the state word (STOPPED:
+// the stop unit has cleared the claim already). A test of anything else - "the run has ended
+// anyway" - turns every later demotion into a no-op: ValidateTokenOrDemote returns false and the
+// refresh loop returns while IsLeader() stays true.
+func demotionClearsRule(c *Ctx, rule string) {
+	m := c.M
+	n := 0
+	for _, u := range m.ClaimClear {
+		if containsFn(m.StopUnits, u) {
+			continue
+		}
+		eachInstr(u, func(in ssa.Instruction) {
+			val, isConst, ok := m.claimStore(in)
+			if !ok || !isConst || val {
+				return
+			}
+			n++
+			var foreign []string
+			seen := map[string]bool{}
+			for _, l := range append(append([]Lit{}, m.GuardsAt(in)...), m.controlCondsDeep(in, 0)...) {
+				str := l.S.String()
+				switch {
+				case m.isClaimLoadSym(l.S) || m.isClaimValueSym(l.S):
+				case m.isTermIdentityLit(l):
+				case !strings.Contains(str, m.ImplName+"."):
+					// arguments, locals, results of pure helpers on them
+				case func() bool {
+					rest := str
+					for _, okf := range []string{m.path(m.State), m.path(m.TermCtx), m.path(m.Claim)} {
+						if okf != "" {
+							rest = strings.ReplaceAll(rest, okf, "")
+						}
+					}
+					return !strings.Contains(rest, m.ImplName+".")
+				}():
+				default:
+					if !seen[str] {
+						seen[str] = true
+						foreign = append(foreign, l.String())
+					}
+				}
+			}
+			c.check(len(foreign) == 0, rule, "a demotion request clears the claim in "+shortFn(u), in,
+				"conditions on other state of the election that decide whether the claim is cleared: %v", foreign)
+		})
+	}
+	if n == 0 {
+		c.undecided(rule, "claim clear outside the stop units", nil, "no Store(false) of the claim found outside the stop units")
+	}
+}
+
 func checkC04(c *Ctx) {
 	m := c.M
+	demotionClearsRule(c, "R7")
 	vf := m.ValidateFn()
 	if vf == nil {
 		c.undecided("R1", "validation function", nil, "no (bool, error) function issuing Get is reachable from ValidateToken")
